@@ -3,7 +3,7 @@
    PARTIAL by nature: the wall-clock bound of the poll (MP_STATUS_CHECK_INTERVAL), SIGCHLD delivery, is_alive() and the
    state of the pipes after SIGKILL are runtime behaviour; the model assumes a dead worker answers nothing further and
    that the poll's is_alive() test is accurate.  The real-SIGKILL correspondence run covers the runtime side. *)
-From PD Require Import Base SdlModel SdlFault.
+From PD Require Import Base SdlModel SdlFault SdlIterRef SdlIterProofs.
 Open Scope nat_scope.
 
 (* never ends the epoch early as if complete: for every configuration, every state, every fault schedule (deaths and
@@ -86,3 +86,18 @@ Theorem C09_died_report_is_truthful : forall fuel c s cr evs ws s' cr' evs',
   next_data_f fuel c s cr evs = (FWorkerDied ws, s', cr', evs') -> forall w, In w ws -> nth w cr' false = true.
 Proof. exact SdlFaultMap.died_report_is_truthful. Qed.
 Print Assumptions C09_died_report_is_truthful.
+
+(* ITERABLE datasets, PROVED for every configuration (any num_workers, prefetch_factor, snapshot interval, shards, batch_size,
+   drop_last) and EVERY fault schedule — worker deaths at any moment (idle, mid-task, before or after their end-of-shard notice),
+   poll time-outs, arrivals in any order: the batches a fresh epoch hands out are a PREFIX of the column-major interleave, in order,
+   each once; the history ends with StopIteration only after ALL of them, or with the worker-died error (or the model's fuel), or has
+   not ended yet.  Never a wrong, repeated or misplaced batch, never an early StopIteration, never an assertion, never an endless
+   wait with nobody left to wait for (the deadlock outcome of the model is shown unreachable: the awaited worker is alive in the
+   main process's books, so if it crashed the time-out reports it).  SdlIterProofs.v: next_data_f_iter, run_f_iter. *)
+Theorem C09_iter_fault_run_never_wrong : forall c, c_kind c = KIter -> 0 < c_W c -> 0 < c_P c ->
+  forall m cr evs,
+  exists k tail, k <= length (reference c) /\
+    run_f m c (sdl_fresh c) cr evs = map (fun b => FO (OBatch b)) (firstn k (reference c)) ++ tail /\
+    (tail = [] \/ exists o, tail = [o] /\ (benignF o \/ (o = FO OStop /\ k = length (reference c)))).
+Proof. exact iter_fault_run_never_wrong. Qed.
+Print Assumptions C09_iter_fault_run_never_wrong.
